@@ -1071,6 +1071,47 @@ func baseVar(v ssa.Value) ssa.Value {
 	}
 }
 
+// neqLenRegion: block at lies in the false-edge region of a comparison `v == len(cells of row du)`
+// (or the true-edge region of `!=`).
+func neqLenRegion(p *Program, fn *ssa.Function, v ssa.Value, du string, loops []*natLoop, at *ssa.BasicBlock) bool {
+	for _, b := range fn.Blocks {
+		if len(b.Instrs) == 0 || len(b.Succs) != 2 {
+			continue
+		}
+		iff, ok := b.Instrs[len(b.Instrs)-1].(*ssa.If)
+		if !ok {
+			continue
+		}
+		bo, ok := iff.Cond.(*ssa.BinOp)
+		if !ok || (bo.Op != token.EQL && bo.Op != token.NEQ) {
+			continue
+		}
+		for _, pair := range [][2]ssa.Value{{bo.X, bo.Y}, {bo.Y, bo.X}} {
+			if pair[0] != v {
+				continue
+			}
+			lc, ok := pair[1].(*ssa.Call)
+			if !ok {
+				continue
+			}
+			if bi, ok := lc.Call.Value.(*ssa.Builtin); !ok || bi.Name() != "len" {
+				continue
+			}
+			if d, ok := rowDesignator(p, lc.Call.Args[0], loops); !ok || d != du {
+				continue
+			}
+			neqSucc := b.Succs[1]
+			if bo.Op == token.NEQ {
+				neqSucc = b.Succs[0]
+			}
+			if edgeRegion(b, neqSucc)[at] {
+				return true
+			}
+		}
+	}
+	return false
+}
+
 func ruleIndexAdeq(r *Run) {
 	p := r.P
 	nUses := 0
@@ -1118,6 +1159,8 @@ func ruleIndexAdeq(r *Run) {
 				boundBy[v][d] = true
 			}
 		})
+		helperBound := map[ssa.Value]int64{} // v − len(cells of every row) ≤ w, established by a validating helper
+		helperName := map[ssa.Value]string{}
 		// …and comparisons made for this function by a validating helper of the same table
 		// (t.firstRowShorterThan(position)): the helper compares its parameter with the cell count
 		// of every row in a loop over t.Rows
@@ -1165,6 +1208,42 @@ func ruleIndexAdeq(r *Run) {
 						boundBy[v] = map[string]bool{}
 					}
 					boundBy[v]["∀loop:"+cal.Name()] = true
+					// what a passed validation establishes: the helper leaves the loop (reports the row)
+					// when `param OP len` holds, so afterwards NOT(param OP len) holds for every row:
+					// param − len ≤ w
+					op := bo.Op
+					if pair[0] == bo.Y { // written as  len OP' param
+						switch op {
+						case token.LSS:
+							op = token.GTR
+						case token.LEQ:
+							op = token.GEQ
+						case token.GTR:
+							op = token.LSS
+						case token.GEQ:
+							op = token.LEQ
+						}
+					}
+					_, po := offsetOf(pair[0])
+					_, lo := offsetOf(pair[1])
+					_, ao := offsetOf(c.Call.Args[pi])
+					var w int64
+					okW := true
+					switch op {
+					case token.GTR: // rejects param+po > len+lo  ⇒ param ≤ len + lo − po
+						w = lo - po
+					case token.GEQ: // rejects param+po ≥ len+lo ⇒ param ≤ len + lo − po − 1
+						w = lo - po - 1
+					default:
+						okW = false // the helper rejects SMALL values: no upper bound comes out of it
+					}
+					if okW {
+						w -= ao // the argument is v+ao
+						if old, ok := helperBound[v]; !ok || w < old {
+							helperBound[v] = w
+						}
+						helperName[v] = cal.Name()
+					}
 				}
 			})
 		})
@@ -1228,6 +1307,35 @@ func ruleIndexAdeq(r *Run) {
 				}
 				sort.Strings(others)
 				key := fmt.Sprintf("%s:row[%s]", shortName(fn), stableDesignator(du))
+				// validated only by a helper: is what the helper establishes strong enough for this use?
+				// an element access needs idx < len, a slice bound idx ≤ len
+				if w, viaHelper := helperBound[bv]; viaHelper && same && strings.HasPrefix(du, "∀loop:") {
+					inline := false
+					for d := range ds {
+						if strings.HasPrefix(d, "∀loop:") && d != "∀loop:"+helperName[bv] {
+							inline = true
+						}
+					}
+					if !inline {
+						_, k := offsetOf(idx)
+						need := int64(0) - k
+						if _, isIdx := in.(*ssa.IndexAddr); isIdx {
+							need = -1 - k
+						}
+						have := w
+						// inside the false branch of `idx == len(cells of this row)` the bound is strict
+						if neqLenRegion(p, fn, bv, du, loops, in.Block()) {
+							have--
+						}
+						okS := have <= need
+						skey := key + ":strength"
+						if !seen[skey] || !okS {
+							seen[skey] = true
+							r.Check("index-adeq", skey, in.Pos(), okS,
+								fmt.Sprintf("%s uses %s%+d on the cells of every row after the validation by %s, which only establishes value − len(cells) ≤ %d (needed: ≤ %d): a row that is exactly that short passes the check and the use is out of range — a panic with the table half edited", shortName(fn), "the validated value", k, helperName[bv], have, need))
+						}
+					}
+				}
 				if seen[key] && same {
 					continue
 				}
